@@ -1,2 +1,589 @@
-(* Proofs for property C13. *)
-From SC.Model Require Import Base.
+(* Proofs for property C13 (based integer literals 0x / 0o / 0b, 'N to hex|octal|binary|decimal').
+
+   1. digit_*            one digit: the reader undoes the printer, both letter cases
+   2. digits_*           the printed digit string of n: its value is n (reader and positional
+                         sum), no leading zero, length = number of digits, fuel 70 suffices
+   3. from_radix_*       the literal reader on printed digits (i64 bound)
+   4. print_*            item_print of a based number; print then read
+   5. convert_*          the rule function number_type_convert
+   6. arith_*            based numbers in + - * /: the left type is kept
+   7. binary64           as_i64 (fofZ n) = n on a stated finite family; exact rationals: all n
+   8. examples           end to end through the executable pipeline *)
+From SC.Model Require Import Base Num Types Config Case Items RuleFns Format Lexer.
+From Coq Require Import ZArith Lia.
+
+Ltac Zify.zify_post_hook ::= Z.to_euclidean_division_equations.
+
+(* ------------------------------------------------------------------------------------- *)
+(* 0. reference notions, written from the statement                                       *)
+(* ------------------------------------------------------------------------------------- *)
+(* the value of a character as a digit: '0'..'9', 'a'..'z', 'A'..'Z' (char::to_digit) *)
+Definition char_digit (c : N) : option Z :=
+  if (N.leb 48 c && N.leb c 57)%bool then Some (Z.of_N c - 48)
+  else if (N.leb 97 c && N.leb c 122)%bool then Some (Z.of_N c - 87)
+  else if (N.leb 65 c && N.leb c 90)%bool then Some (Z.of_N c - 55)
+  else None.
+
+(* positional value of a digit list, most significant first *)
+Fixpoint of_digits (b : Z) (ds : list Z) (acc : Z) : Z :=
+  match ds with
+  | [] => acc
+  | d :: r => of_digits b r (acc * b + d)
+  end.
+
+Definition is_digit (b d : Z) : Prop := 0 <= d < b.
+
+(* the four bases and their prefixes *)
+Definition base_of (t : numtype) : Z :=
+  match t with Binary => 2 | Octal => 8 | Hexadecimal => 16 | _ => 10 end.
+Definition prefix_of (t : numtype) : str :=
+  match t with Binary => s "0b" | Octal => s "0o" | Hexadecimal => s "0x" | _ => [] end.
+Definition based (t : numtype) : Prop := t = Binary \/ t = Octal \/ t = Hexadecimal.
+
+(* ------------------------------------------------------------------------------------- *)
+(* 1. one digit                                                                           *)
+(* ------------------------------------------------------------------------------------- *)
+Lemma radix_value_cons b c r acc :
+  radix_value b (c :: r) acc =
+  match char_digit c with
+  | Some v => if v <? b then radix_value b r (acc * b + v) else None
+  | None => None
+  end.
+Proof. reflexivity. Qed.
+
+Lemma digit_read upper d : 0 <= d < 36 -> char_digit (digit_char upper d) = Some d.
+Proof.
+  intro H. unfold digit_char, char_digit.
+  destruct (Z.ltb_spec d 10) as [H10|H10].
+  - assert (E1 : N.leb 48 (Z.to_N (48 + d)) = true) by (apply N.leb_le; lia).
+    assert (E2 : N.leb (Z.to_N (48 + d)) 57 = true) by (apply N.leb_le; lia).
+    rewrite E1, E2. cbn [andb]. f_equal. lia.
+  - destruct upper.
+    + assert (E1 : N.leb 48 (Z.to_N (55 + d)) = true) by (apply N.leb_le; lia).
+      assert (E2 : N.leb (Z.to_N (55 + d)) 57 = false) by (apply N.leb_gt; lia).
+      assert (E3 : N.leb 97 (Z.to_N (55 + d)) = false) by (apply N.leb_gt; lia).
+      assert (E4 : N.leb 65 (Z.to_N (55 + d)) = true) by (apply N.leb_le; lia).
+      assert (E5 : N.leb (Z.to_N (55 + d)) 90 = true) by (apply N.leb_le; lia).
+      rewrite E1, E2, E3, E4, E5. cbn [andb]. f_equal. lia.
+    + assert (E1 : N.leb 48 (Z.to_N (87 + d)) = true) by (apply N.leb_le; lia).
+      assert (E2 : N.leb (Z.to_N (87 + d)) 57 = false) by (apply N.leb_gt; lia).
+      assert (E3 : N.leb 97 (Z.to_N (87 + d)) = true) by (apply N.leb_le; lia).
+      assert (E4 : N.leb (Z.to_N (87 + d)) 122 = true) by (apply N.leb_le; lia).
+      rewrite E1, E2, E3, E4. cbn [andb]. f_equal. lia.
+Qed.
+
+(* the letter case does not matter to the reader *)
+Lemma digit_case_insensitive d : 0 <= d < 36 ->
+  char_digit (digit_char true d) = char_digit (digit_char false d).
+Proof. intro H. rewrite !digit_read by assumption. reflexivity. Qed.
+
+(* the characters the printer uses: 0-9 then A-F (upper) or a-f (lower) *)
+Lemma digit_char_table :
+  map (digit_char true) [0;1;2;3;4;5;6;7;8;9;10;11;12;13;14;15] = s "0123456789ABCDEF" /\
+  map (digit_char false) [0;1;2;3;4;5;6;7;8;9;10;11;12;13;14;15] = s "0123456789abcdef".
+Proof. split; reflexivity. Qed.
+
+(* ------------------------------------------------------------------------------------- *)
+(* 2. the digit string of n                                                               *)
+(* ------------------------------------------------------------------------------------- *)
+(* reading a string of digit characters is the positional sum *)
+Lemma radix_value_digits b upper ds : 2 <= b <= 36 -> Forall (is_digit b) ds ->
+  forall acc, radix_value b (map (digit_char upper) ds) acc = Some (of_digits b ds acc).
+Proof.
+  intros Hb H. induction H as [|d r Hd Hr IH]; intro acc.
+  - reflexivity.
+  - cbn [map of_digits]. rewrite radix_value_cons. unfold is_digit in Hd.
+    rewrite digit_read by lia.
+    destruct (Z.ltb_spec d b); [apply IH | lia].
+Qed.
+
+Lemma div_bounds b n p : 2 <= b -> b <= n < b * p -> 0 < n / b < p.
+Proof.
+  intros Hb Hn. split; [apply Z.div_str_pos; lia | apply Z.div_lt_upper_bound; lia].
+Qed.
+
+(* the digits the printer produces, as numbers (same recursion as Format.radix_digits) *)
+Fixpoint digits_of (fuel : nat) (b n : Z) (acc : list Z) : list Z :=
+  match fuel with
+  | O => acc
+  | S f => let acc' := (n mod b) :: acc in
+           if n <? b then acc' else digits_of f b (n / b) acc'
+  end.
+
+Lemma radix_digits_map fuel upper b : forall n acc,
+  radix_digits fuel upper b n (map (digit_char upper) acc)
+  = map (digit_char upper) (digits_of fuel b n acc).
+Proof.
+  induction fuel as [|f IH]; intros n acc.
+  - reflexivity.
+  - cbn [radix_digits digits_of]. destruct (n <? b).
+    + reflexivity.
+    + rewrite <- IH. reflexivity.
+Qed.
+
+Lemma digits_of_app fuel b : forall n acc, digits_of fuel b n acc = digits_of fuel b n [] ++ acc.
+Proof.
+  induction fuel as [|f IH]; intros n acc.
+  - reflexivity.
+  - cbn [digits_of]. destruct (n <? b).
+    + reflexivity.
+    + rewrite IH. rewrite (IH _ [n mod b]). rewrite <- app_assoc. reflexivity.
+Qed.
+
+Lemma digits_of_Forall fuel b : 2 <= b -> forall n acc, 0 <= n ->
+  Forall (is_digit b) acc -> Forall (is_digit b) (digits_of fuel b n acc).
+Proof.
+  intro Hb. induction fuel as [|f IH]; intros n acc Hn Hacc.
+  - assumption.
+  - cbn [digits_of].
+    assert (Hd : Forall (is_digit b) (n mod b :: acc)).
+    { constructor; [unfold is_digit; lia | assumption]. }
+    destruct (n <? b); [assumption|]. apply IH; [apply Z.div_pos; lia | assumption].
+Qed.
+
+Lemma of_digits_app b x y : forall acc, of_digits b (x ++ y) acc = of_digits b y (of_digits b x acc).
+Proof. induction x as [|d r IH]; intro acc; [reflexivity | cbn [app of_digits]; apply IH]. Qed.
+
+(* the fuel suffices when n < b^fuel; then the positional value of the digits is n *)
+Lemma digits_of_value b : 2 <= b -> forall fuel n acc a, 0 <= n < b ^ Z.of_nat fuel ->
+  of_digits b (digits_of fuel b n acc) a = of_digits b acc (a * b ^ Z.of_nat (length (digits_of fuel b n [])) + n).
+Proof.
+  intro Hb. induction fuel as [|f IH]; intros n acc a Hn.
+  - cbn [digits_of length Z.of_nat] in *. change (b ^ 0) with 1 in *. replace n with 0 by lia.
+    f_equal. lia.
+  - cbn [digits_of].
+    rewrite Nat2Z.inj_succ, Z.pow_succ_r in Hn by lia.
+    destruct (Z.ltb_spec n b) as [Hlt|Hge].
+    + cbn [of_digits length]. change (Z.of_nat 1) with 1. rewrite Z.pow_1_r.
+      f_equal. rewrite Z.mod_small by lia. reflexivity.
+    + rewrite IH by (pose proof (div_bounds b n (b ^ Z.of_nat f) Hb ltac:(lia)); lia).
+      rewrite (digits_of_app f b (n / b) [n mod b]), app_length. cbn [length of_digits].
+      rewrite Nat2Z.inj_add. change (Z.of_nat 1) with 1.
+      rewrite Z.pow_add_r, Z.pow_1_r by lia.
+      f_equal.
+      pose proof (Z.div_mod n b ltac:(lia)) as E.
+      set (p := b ^ Z.of_nat (length (digits_of f b (n / b) []))) in *.
+      set (q := n / b) in *. set (r := n mod b) in *. clearbody p q r. subst n. ring.
+Qed.
+
+(* number of digits: b^(len-1) <= n < b^len for n > 0 *)
+Lemma digits_of_length b : 2 <= b -> forall fuel n, 0 < n < b ^ Z.of_nat fuel ->
+  b ^ (Z.of_nat (length (digits_of fuel b n [])) - 1) <= n < b ^ Z.of_nat (length (digits_of fuel b n [])).
+Proof.
+  intro Hb. induction fuel as [|f IH]; intros n Hn.
+  - change (b ^ Z.of_nat 0) with 1 in Hn. lia.
+  - cbn [digits_of]. rewrite Nat2Z.inj_succ, Z.pow_succ_r in Hn by lia.
+    destruct (Z.ltb_spec n b) as [Hlt|Hge].
+    + cbn [length]. change (Z.of_nat 1 - 1) with 0. change (Z.of_nat 1) with 1.
+      rewrite Z.pow_0_r, Z.pow_1_r. lia.
+    + rewrite digits_of_app, app_length. cbn [length]. rewrite Nat2Z.inj_add. change (Z.of_nat 1) with 1.
+      assert (Hq : 0 < n / b < b ^ Z.of_nat f) by (apply div_bounds; lia).
+      specialize (IH (n / b) Hq).
+      set (L := Z.of_nat (length (digits_of f b (n / b) []))) in *.
+      assert (HL : 1 <= L).
+      { destruct (Z.le_gt_cases 1 L) as [?|Hc]; [assumption|]. exfalso.
+        assert (L = 0) by (subst L; lia). rewrite H in IH. change (b ^ 0) with 1 in IH. lia. }
+      replace (L + 1 - 1) with (Z.succ (L - 1)) by lia. rewrite Z.pow_succ_r by lia.
+      replace (L + 1) with (Z.succ L) by lia. rewrite Z.pow_succ_r by lia.
+      set (p1 := b ^ (L - 1)) in *. set (p2 := b ^ L) in *. clearbody p1 p2.
+      pose proof (Z.div_mod n b ltac:(lia)). pose proof (Z.mod_pos_bound n b ltac:(lia)). nia.
+Qed.
+
+(* no leading zero *)
+Lemma digits_of_head b : 2 <= b -> forall fuel n acc, 0 < n < b ^ Z.of_nat fuel ->
+  exists d r, 0 < d < b /\ digits_of fuel b n acc = d :: r.
+Proof.
+  intro Hb. induction fuel as [|f IH]; intros n acc Hn.
+  - change (b ^ Z.of_nat 0) with 1 in Hn. lia.
+  - cbn [digits_of]. rewrite Nat2Z.inj_succ, Z.pow_succ_r in Hn by lia.
+    destruct (Z.ltb_spec n b) as [Hlt|Hge].
+    + exists (n mod b), acc. rewrite Z.mod_small by lia. split; [lia | reflexivity].
+    + apply IH. apply div_bounds; lia.
+Qed.
+
+Lemma digits_of_zero b fuel : 2 <= b -> digits_of (S fuel) b 0 [] = [0].
+Proof.
+  intro Hb. cbn [digits_of]. destruct (Z.ltb_spec 0 b); [|lia]. rewrite Z.mod_0_l by lia. reflexivity.
+Qed.
+
+Lemma pow_fuel_mono b (f : nat) : 2 <= b -> 2 ^ Z.of_nat f <= b ^ Z.of_nat f.
+Proof. intro Hb. apply Z.pow_le_mono_l. lia. Qed.
+
+(* ---- the statements about Format.radix_digits ---- *)
+Section Digits.
+Variable b : Z.
+Hypothesis Hb : 2 <= b <= 36.
+Variable upper : bool.
+
+Lemma radix_digits_eq fuel n :
+  radix_digits fuel upper b n [] = map (digit_char upper) (digits_of fuel b n []).
+Proof. exact (radix_digits_map fuel upper b n []). Qed.
+
+(* reading the printed digits gives n back *)
+Theorem digits_roundtrip_fuel fuel n : 0 <= n < b ^ Z.of_nat fuel ->
+  radix_value b (radix_digits fuel upper b n []) 0 = Some n.
+Proof.
+  intro Hn. rewrite radix_digits_eq.
+  rewrite radix_value_digits; [| exact Hb | apply digits_of_Forall; [lia | lia | constructor]].
+  f_equal. rewrite digits_of_value by lia. cbn [of_digits]. lia.
+Qed.
+
+(* the fuel of 70 digits covers every 64-bit value in every base *)
+Lemma fuel70 n : 0 <= n < 2 ^ 64 -> 0 <= n < b ^ Z.of_nat 70.
+Proof.
+  intro Hn. split; [lia|].
+  apply Z.lt_le_trans with (2 ^ 64); [lia|].
+  apply Z.le_trans with (2 ^ Z.of_nat 70); [vm_compute; discriminate | apply pow_fuel_mono; lia].
+Qed.
+
+Theorem digits_roundtrip n : 0 <= n < 2 ^ 64 ->
+  radix_value b (radix_digits 70 upper b n []) 0 = Some n.
+Proof. intro Hn. apply digits_roundtrip_fuel, fuel70, Hn. Qed.
+
+(* the printed string, digit by digit: digits of the base, positional value n, no leading
+   zero, as many digits as n needs *)
+Theorem digits_shape n : 0 <= n < 2 ^ 64 ->
+  exists ds, radix_digits 70 upper b n [] = map (digit_char upper) ds /\
+    Forall (is_digit b) ds /\ of_digits b ds 0 = n /\
+    (n = 0 -> ds = [0]) /\
+    (0 < n -> (exists d r, ds = d :: r /\ 0 < d) /\
+              b ^ (Z.of_nat (length ds) - 1) <= n < b ^ Z.of_nat (length ds)).
+Proof.
+  intro Hn. pose proof (fuel70 n Hn) as Hf.
+  exists (digits_of 70 b n []). split; [apply radix_digits_eq|].
+  split; [apply digits_of_Forall; [lia | lia | constructor]|].
+  split; [rewrite digits_of_value by lia; cbn [of_digits]; lia|].
+  split.
+  - intro E. subst n. apply digits_of_zero. lia.
+  - intro Hpos. split.
+    + destruct (digits_of_head b ltac:(lia) 70%nat n [] ltac:(lia)) as [d [r [Hd E]]].
+      exists d, r. split; [exact E | lia].
+    + apply digits_of_length; lia.
+Qed.
+
+End Digits.
+
+(* ------------------------------------------------------------------------------------- *)
+(* 3. the literal reader on printed digits                                                *)
+(* ------------------------------------------------------------------------------------- *)
+Section Generic.
+Context {F : Type} {NF : Num F}.
+
+(* i64::from_str_radix: the value must fit an i64 *)
+Lemma from_radix_spec b x :
+  from_radix b x = match radix_value b x 0 with
+                   | Some v => if v <? 2 ^ 63 then Some (fofZ v) else None
+                   | None => None
+                   end.
+Proof. reflexivity. Qed.
+
+Theorem from_radix_printed b upper n : 2 <= b <= 36 -> 0 <= n < 2 ^ 63 ->
+  from_radix b (radix_digits 70 upper b n []) = Some (fofZ n).
+Proof.
+  intros Hb Hn. rewrite from_radix_spec, digits_roundtrip by lia.
+  destruct (Z.ltb_spec n (2 ^ 63)); [reflexivity | lia].
+Qed.
+
+(* what does not fit an i64 is not read at all (the literal is skipped, no wrong value) *)
+Theorem from_radix_too_big b upper n : 2 <= b <= 36 -> 2 ^ 63 <= n < 2 ^ 64 ->
+  from_radix b (radix_digits 70 upper b n []) = None.
+Proof.
+  intros Hb Hn. rewrite from_radix_spec, digits_roundtrip by lia.
+  destruct (Z.ltb_spec n (2 ^ 63)); [lia | reflexivity].
+Qed.
+
+(* ------------------------------------------------------------------------------------- *)
+(* 4. printing a based number; print then read                                            *)
+(* ------------------------------------------------------------------------------------- *)
+Definition upper_of (t : numtype) : bool := match t with Hexadecimal => true | _ => false end.
+
+Lemma clampZ_range lo hi z : lo <= hi -> lo <= clampZ lo hi z <= hi.
+Proof.
+  intro H. unfold clampZ. destruct (Z.ltb_spec z lo); [lia|]. destruct (Z.ltb_spec hi z); lia.
+Qed.
+
+Lemma as_i64_range (x : F) : - 2 ^ 63 <= as_i64 x <= 2 ^ 63 - 1.
+Proof.
+  unfold as_i64, f_as. destruct (fcls x); try lia. apply clampZ_range. lia.
+Qed.
+
+(* NumberItem::print for the three based types *)
+Theorem print_based cfg lang year (x : F) t : based t ->
+  item_print cfg lang year (INumber x t)
+  = Ok (prefix_of t ++ radix_digits 70 (upper_of t) (base_of t)
+                         (if as_i64 x <? 0 then as_i64 x + 2 ^ 64 else as_i64 x) []).
+Proof. intros [E|[E|E]]; subst t; reflexivity. Qed.
+
+Lemma based_base t : based t -> 2 <= base_of t <= 36 /\ In (base_of t) [2; 8; 16].
+Proof. intros [E|[E|E]]; subst t; cbn; split; try lia; tauto. Qed.
+
+(* a non-negative value: prefix, then digits that read back as the same integer *)
+Theorem print_read cfg lang year (x : F) t : based t -> 0 <= as_i64 x ->
+  exists ds,
+    item_print cfg lang year (INumber x t) = Ok (prefix_of t ++ ds) /\
+    ds = radix_digits 70 (upper_of t) (base_of t) (as_i64 x) [] /\
+    radix_value (base_of t) ds 0 = Some (as_i64 x) /\
+    from_radix (base_of t) ds = Some (fofZ (as_i64 x)).
+Proof.
+  intros Ht Hx. pose proof (as_i64_range x) as Hr. pose proof (based_base t Ht) as [Hb _].
+  exists (radix_digits 70 (upper_of t) (base_of t) (as_i64 x) []).
+  split; [|split; [reflexivity | split]].
+  - rewrite print_based by assumption. destruct (Z.ltb_spec (as_i64 x) 0); [lia | reflexivity].
+  - apply digits_roundtrip; lia.
+  - apply from_radix_printed; lia.
+Qed.
+
+(* a negative value prints its 64-bit two's complement; that text is not an i64 literal *)
+Theorem print_negative cfg lang year (x : F) t : based t -> as_i64 x < 0 ->
+  exists ds,
+    item_print cfg lang year (INumber x t) = Ok (prefix_of t ++ ds) /\
+    radix_value (base_of t) ds 0 = Some (as_i64 x + 2 ^ 64) /\
+    from_radix (base_of t) ds = None.
+Proof.
+  intros Ht Hx. pose proof (as_i64_range x) as Hr. pose proof (based_base t Ht) as [Hb _].
+  exists (radix_digits 70 (upper_of t) (base_of t) (as_i64 x + 2 ^ 64) []).
+  split; [|split].
+  - rewrite print_based by assumption. destruct (Z.ltb_spec (as_i64 x) 0); [reflexivity | lia].
+  - apply digits_roundtrip; lia.
+  - apply from_radix_too_big; lia.
+Qed.
+
+(* the integer n held as a number: when the number type represents n exactly (as_i64 (fofZ n)
+   = n: every |n| <= 2^53 at binary64, see as_i64_fofZ_family / as_i64_fofZ_Q below), the
+   printed literal reads back as that very number *)
+Theorem print_read_int cfg lang year n t : based t -> 0 <= n -> as_i64 (fofZ n : F) = n ->
+  exists ds,
+    item_print cfg lang year (INumber (fofZ n : F) t) = Ok (prefix_of t ++ ds) /\
+    ds = radix_digits 70 (upper_of t) (base_of t) n [] /\
+    radix_value (base_of t) ds 0 = Some n /\
+    from_radix (base_of t) ds = Some (fofZ n : F).
+Proof.
+  intros Ht Hn E.
+  assert (Hx : 0 <= as_i64 (fofZ n : F)) by (rewrite E; exact Hn).
+  destruct (print_read cfg lang year (fofZ n : F) t Ht Hx) as [ds [H1 [H2 [H3 H4]]]].
+  rewrite E in *. exists ds. auto.
+Qed.
+
+(* ------------------------------------------------------------------------------------- *)
+(* 5. 'N to hex | hexadecimal | octal | binary | decimal'                                  *)
+(* ------------------------------------------------------------------------------------- *)
+Definition type_words : list (str * numtype) :=
+  [(s "hex", Hexadecimal); (s "hexadecimal", Hexadecimal); (s "octal", Octal);
+   (s "binary", Binary); (s "decimal", Decimal)].
+
+Definition type_word (w : str) : option numtype := assoc w type_words.
+
+Lemma get_number_has vs k fs (x : F) : get_number vs k fs = Some x -> assoc_mem k fs = true.
+Proof.
+  unfold get_number, field_token, assoc_mem. destruct (assoc k fs); [reflexivity | discriminate].
+Qed.
+
+Lemma get_text_has (vs : vars F) k fs w : get_text vs k fs = Some w -> assoc_mem k fs = true.
+Proof.
+  unfold get_text, field_token, assoc_mem. destruct (assoc k fs); [reflexivity | discriminate].
+Qed.
+
+(* the rule function: N (a number token or a variable holding a number) is rounded to the
+   nearest integer (f64::round) and takes the type the word names; any other word: no result *)
+Theorem convert_spec (vs : vars F) fs x w :
+  get_number vs (s "number") fs = Some x -> get_text vs (s "type") fs = Some w ->
+  number_type_convert vs fs = Ok (option_map (TNumber (fround x)) (type_word w)).
+Proof.
+  intros Hn Ht. unfold number_type_convert, has.
+  rewrite (get_number_has _ _ _ _ Hn), (get_text_has _ _ _ _ Ht). cbn [andb].
+  rewrite Hn, Ht. unfold type_word, type_words. cbn [assoc].
+  destruct (str_eqb w (s "hex")); [reflexivity|].
+  destruct (str_eqb w (s "hexadecimal")); [reflexivity|]. cbn [orb].
+  destruct (str_eqb w (s "octal")); [reflexivity|].
+  destruct (str_eqb w (s "binary")); [reflexivity|].
+  destruct (str_eqb w (s "decimal")); reflexivity.
+Qed.
+
+Corollary convert_words (vs : vars F) fs x :
+  get_number vs (s "number") fs = Some x ->
+  forall w t, In (w, t) type_words -> get_text vs (s "type") fs = Some w ->
+  number_type_convert vs fs = Ok (Some (TNumber (fround x) t)).
+Proof.
+  intros Hn w t Hin Ht. rewrite (convert_spec vs fs x w Hn Ht).
+  cbn [type_words In] in Hin.
+  repeat (destruct Hin as [E|Hin]; [inversion E; subst; reflexivity|]). contradiction.
+Qed.
+
+(* without both fields the rule declines *)
+Lemma convert_declines (vs : vars F) fs :
+  get_number vs (s "number") fs = None \/ get_text vs (s "type") fs = None ->
+  number_type_convert vs fs = Ok None.
+Proof.
+  intro H. unfold number_type_convert. destruct (has "number" fs && has "type" fs); [|reflexivity].
+  destruct H as [H|H]; rewrite H; [reflexivity|]. destruct (get_number vs (s "number") fs); reflexivity.
+Qed.
+
+(* ------------------------------------------------------------------------------------- *)
+(* 6. arithmetic: a based number is an ordinary number; the result keeps the left type     *)
+(* ------------------------------------------------------------------------------------- *)
+Theorem arith_left_type (bexec : config F -> str -> res (option F)) cfg (x y : F) t t' op :
+  calculate bexec cfg (INumber x t) (INumber y t') op = Ok (Some (INumber (arith op x y) t)).
+Proof. reflexivity. Qed.
+
+Theorem arith_ops (x y : F) :
+  arith OAdd x y = fadd x y /\ arith OSub x y = fsub x y /\ arith OMul x y = fmul x y /\
+  arith ODiv x y = do_division x y.
+Proof. repeat split; reflexivity. Qed.
+
+End Generic.
+
+(* ------------------------------------------------------------------------------------- *)
+(* 7. integers held as numbers: as_i64 (fofZ n) = n                                        *)
+(* ------------------------------------------------------------------------------------- *)
+From Coq Require Import Floats.
+From SC.Model Require Import NumF64 FloatIO Parser Api Run64 Corr.
+From SC.Gen Require Import ConfigData.
+
+(* 0 and 2^k - 1, 2^k, 2^k + 1 for k <= kmax *)
+Definition pow2_family (kmax : nat) : list Z :=
+  0 :: flat_map (fun k => let p := 2 ^ Z.of_nat k in [p - 1; p; p + 1]) (seq 0 (S kmax)).
+
+(* binary64: i64 -> f64 -> i64 is the identity on n, and f64 -> i64 -> f64 on its image *)
+Definition int_exact64 (n : Z) : bool :=
+  (as_i64 (fofZ n : float) =? n) &&
+  (f64_to_bits (fofZ (as_i64 (fofZ n : float))) =? f64_to_bits (fofZ n)).
+
+Lemma int_exact64_family : forallb int_exact64 (pow2_family 52) = true.
+Proof. vm_compute. reflexivity. Qed.
+
+Theorem as_i64_fofZ_family n : In n (pow2_family 52) -> as_i64 (fofZ n : float) = n.
+Proof.
+  intro H. pose proof int_exact64_family as Hall. rewrite forallb_forall in Hall.
+  specialize (Hall n H). unfold int_exact64 in Hall. apply andb_true_iff in Hall as [H1 _].
+  apply Z.eqb_eq. exact H1.
+Qed.
+
+(* so, at binary64, every member of the family prints as prefix + its digits and that text
+   reads back as the same float *)
+Theorem print_read_family64 cfg lang year n t : based t -> In n (pow2_family 52) ->
+  exists ds,
+    item_print cfg lang year (INumber (fofZ n : float) t) = Ok (prefix_of t ++ ds) /\
+    ds = radix_digits 70 (upper_of t) (base_of t) n [] /\
+    radix_value (base_of t) ds 0 = Some n /\
+    from_radix (base_of t) ds = Some (fofZ n : float).
+Proof.
+  intros Ht Hin. apply print_read_int; [assumption | | apply as_i64_fofZ_family; assumption].
+  assert (Hpos : forallb (fun z => 0 <=? z) (pow2_family 52) = true) by (vm_compute; reflexivity).
+  rewrite forallb_forall in Hpos. apply Z.leb_le, Hpos, Hin.
+Qed.
+
+(* above 2^53 an integer is not always a binary64: 2^53 + 1 is held as 2^53 *)
+Example above_2_53 : as_i64 (fofZ (2 ^ 53 + 1) : float) = 2 ^ 53.
+Proof. vm_compute. reflexivity. Qed.
+
+(* ------------------------------------------------------------------------------------- *)
+(* 8. through the whole executable pipeline (regexes, rules, interpreter, formatter)       *)
+(* ------------------------------------------------------------------------------------- *)
+Definition CK : clock := {| ck_today := 19000; ck_year := 2022 |}.
+
+(* per line: the printed text and the result as a token *)
+Definition run (text : str) : list (option (str * option (token float))) :=
+  match exec64 CK default_config (s "en") text with
+  | Ok r => map (fun l => match l with
+                          | Some o => match lo_result o with
+                                      | LOk out a => Some (out, ast_as_token a)
+                                      | _ => None
+                                      end
+                          | None => None
+                          end) (er_lines r)
+  | Panic _ => []
+  end.
+
+Definition word_of (t : numtype) : str :=
+  match t with Hexadecimal => s "hex" | Octal => s "octal" | Binary => s "binary" | _ => s "decimal" end.
+
+Definition is_num (r : list (option (str * option (token float)))) (out : str) (n : Z) (t : numtype) : bool :=
+  match r with
+  | [Some (o, Some (TNumber x t'))] =>
+    str_eqb o out && (f64_to_bits x =? f64_to_bits (f64_of_Z n)) && numtype_eqb t t'
+  | _ => false
+  end.
+
+(* 'n to <base>' prints prefix + digits of n; that text alone is the number n of that base and
+   prints as itself *)
+Definition e2e (t : numtype) (n : Z) : bool :=
+  let out := prefix_of t ++ radix_digits 70 (upper_of t) (base_of t) n [] in
+  is_num (run (Z_to_str n ++ s " to " ++ word_of t)) out n t && is_num (run out) out n t.
+
+Theorem e2e_family :
+  forallb (e2e Hexadecimal) (pow2_family 52) = true /\
+  forallb (e2e Octal) (pow2_family 52) = true /\
+  forallb (e2e Binary) (pow2_family 20) = true.
+Proof. vm_compute. repeat split; reflexivity. Qed.
+
+(* the rule as configured: two patterns (with and without the conversion word), and the word
+   group of the pattern holds exactly the words the rule function knows *)
+Definition is_some {A} (x : option A) : bool := match x with Some _ => true | None => false end.
+
+Theorem convert_tables :
+  option_map (assoc (s "number_type_convert")) (assoc (s "en") d_rule_texts)
+  = Some (Some [s "{NUMBER:number} {GROUP:conversion:conversion_group} {GROUP:type:number_type_group}";
+                s "{NUMBER:number} {GROUP:type:number_type_group}"]) /\
+  forall gs ws, assoc (s "en") d_word_group = Some gs -> assoc (s "number_type_group") gs = Some ws ->
+    forallb (fun w => is_some (type_word w)) ws = true /\
+    forallb (fun p => mem_str (fst p) ws) type_words = true.
+Proof.
+  split; [vm_compute; reflexivity|].
+  intros gs ws H1 H2. vm_compute in H1. inversion H1; subst gs; clear H1.
+  vm_compute in H2. inversion H2; subst ws; clear H2.
+  vm_compute. split; reflexivity.
+Qed.
+
+Theorem examples :
+  run (s "255 to hex") = [Some (s "0xFF", Some (TNumber (f64_of_Z 255) Hexadecimal))] /\
+  run (s "0xFF") = [Some (s "0xFF", Some (TNumber (f64_of_Z 255) Hexadecimal))] /\
+  run (s "0xff to decimal") = [Some (s "255", Some (TNumber (f64_of_Z 255) Decimal))] /\
+  run (s "2147483648 to hex") = [Some (s "0x80000000", Some (TNumber (f64_of_Z 2147483648) Hexadecimal))] /\
+  run (s "0x80000000") = [Some (s "0x80000000", Some (TNumber (f64_of_Z 2147483648) Hexadecimal))] /\
+  run (s "10 octal") = [Some (s "0o12", Some (TNumber (f64_of_Z 10) Octal))] /\
+  run (s "2,5 to binary") = [Some (s "0b11", Some (TNumber (f64_of_Z 3) Binary))] /\
+  run (s "0b1111 + 0x10") = [Some (s "0b11111", Some (TNumber (f64_of_Z 31) Binary))] /\
+  run (s "0x10 * 0o10") = [Some (s "0x80", Some (TNumber (f64_of_Z 128) Hexadecimal))] /\
+  radix_value 16 (s "fF") 0 = Some 255 /\
+  radix_digits 70 true 16 (2 ^ 64 - 1) [] = s "FFFFFFFFFFFFFFFF" /\
+  from_radix 16 (s "7FFFFFFFFFFFFFFF") = Some (f64_of_Z (2 ^ 63 - 1)) /\
+  from_radix (F:=float) 16 (s "8000000000000000") = None.
+Proof. vm_compute. repeat split; reflexivity. Qed.
+
+(* ------------------------------------------------------------------------------------- *)
+(* 7'. exact rationals: every i64 is held exactly                                          *)
+(* ------------------------------------------------------------------------------------- *)
+From Coq Require Import QArith Qcanon.
+From SC.Model Require Import NumQ.
+Local Open Scope Z_scope.
+
+Lemma Qred_inject_Z n : Qred (inject_Z n) = inject_Z n.
+Proof.
+  unfold Qred, inject_Z.
+  pose proof (Z.ggcd_gcd n 1) as Hg. pose proof (Z.ggcd_correct_divisors n 1) as Hd.
+  destruct (Z.ggcd n 1) as [g [aa bb]]. cbn [fst snd] in *.
+  rewrite Z.gcd_1_r in Hg. subst g. destruct Hd as [H1 H2].
+  rewrite Z.mul_1_l in H1, H2. subst aa bb. reflexivity.
+Qed.
+
+Lemma truncZ_ofZ_Q n : ftruncZ (fofZ n : Qc) = n.
+Proof.
+  cbn [ftruncZ fofZ NumQ]. unfold Qc_truncZ, Qc_of_Z. cbn [this Q2Qc].
+  rewrite Qred_inject_Z. cbn [inject_Z]. apply Z.quot_1_r.
+Qed.
+
+Theorem as_i64_fofZ_Q (n : Z) : (- 2 ^ 63 <= n <= 2 ^ 63 - 1)%Z -> as_i64 (fofZ n : Qc) = n.
+Proof.
+  intro H. unfold as_i64, f_as. cbn [fcls NumQ]. rewrite truncZ_ofZ_Q.
+  unfold clampZ. destruct (Z.ltb_spec n (- 2 ^ 63)); [lia|]. destruct (Z.ltb_spec (2 ^ 63 - 1) n); lia.
+Qed.
+
+Theorem print_read_Q cfg lang year (n : Z) t : based t -> (0 <= n < 2 ^ 63)%Z ->
+  exists ds,
+    item_print cfg lang year (INumber (fofZ n : Qc) t) = Ok (prefix_of t ++ ds) /\
+    ds = radix_digits 70 (upper_of t) (base_of t) n [] /\
+    radix_value (base_of t) ds 0 = Some n /\
+    from_radix (base_of t) ds = Some (fofZ n : Qc).
+Proof.
+  intros Ht Hn. apply print_read_int; [assumption | lia | apply as_i64_fofZ_Q; lia].
+Qed.
